@@ -234,6 +234,17 @@ func loginEdits(encrypted bool) []loginEdit {
 				set("all masks zero", "MUST-FAIL", func(x *lPkg) { x.Zero = "all" })
 				set("request mask zero", "EITHER", func(x *lPkg) { x.Zero = "req" })
 				set("response mask zero", "EITHER", func(x *lPkg) { x.Zero = "resp" })
+				// other shapes of the capability package: no capability granted at all is "all-zero capabilities"
+				set("no types at all", "MUST-FAIL", func(x *lPkg) { x.Zero = "none" })
+				set("masks of length zero", "EITHER", func(x *lPkg) { x.Zero = "len0" })
+				set("request type only", "EITHER", func(x *lPkg) { x.Zero = "onlyreq" })
+				set("response type only", "EITHER", func(x *lPkg) { x.Zero = "onlyresp" })
+				set("with security type", "EITHER", func(x *lPkg) { x.Zero = "sec" })
+				set("unknown type", "EITHER", func(x *lPkg) { x.Zero = "unknown" })
+				set("types twice", "EITHER", func(x *lPkg) { x.Zero = "dup" })
+				set("response before request", "EITHER", func(x *lPkg) { x.Zero = "swapped" })
+				set("one-byte masks", "EITHER", func(x *lPkg) { x.Zero = "short" })
+				set("255-byte masks", "EITHER", func(x *lPkg) { x.Zero = "long" })
 			case "done":
 				for _, st := range []int{0x01, 0x02, 0x10, 0x12} {
 					st := st
@@ -412,6 +423,43 @@ func (pk lPkg) encode(p *loginPlan) []byte {
 			req = make([]byte, len(req))
 		case "resp":
 			resp = make([]byte, len(resp))
+		case "none":
+			return peer.CapabilityFull(nil, nil, nil)
+		case "len0":
+			return peer.Capability([]byte{}, []byte{})
+		case "onlyreq":
+			return peer.CapabilityFull(req, nil, nil)
+		case "onlyresp":
+			return peer.CapabilityFull(nil, resp, nil)
+		case "sec":
+			return peer.CapabilityFull(req, resp, []byte{0x01, 0x02})
+		case "unknown":
+			b := peer.Capability(req, resp)
+			extra := []byte{0x09, 0x02, 0xff, 0xff}
+			b = append(b, extra...)
+			l := int(b[1]) | int(b[2])<<8
+			l += len(extra)
+			b[1], b[2] = byte(l), byte(l>>8)
+			return b
+		case "dup":
+			b := peer.Capability(req, resp)
+			extra := append([]byte{}, b[3:]...)
+			b = append(b, extra...)
+			l := int(b[1]) | int(b[2])<<8
+			l += len(extra)
+			b[1], b[2] = byte(l), byte(l>>8)
+			return b
+		case "swapped":
+			b := peer.Capability(req, resp)
+			r1 := append([]byte{}, b[3:3+2+len(req)]...)
+			r2 := append([]byte{}, b[3+2+len(req):]...)
+			return append(append(append([]byte{}, b[:3]...), r2...), r1...)
+		case "short":
+			return peer.Capability([]byte{0x02}, []byte{0x02})
+		case "long":
+			big := make([]byte, 255)
+			big[254], big[0] = 0x02, 0x80
+			return peer.Capability(big, append([]byte{}, big...))
 		}
 		return peer.Capability(req, resp)
 	case "env":
